@@ -398,6 +398,16 @@ def run(ck, build):
         _exact(aeadlib.check_absorb, ck, mod, ks, label, rm)
     for f in aeadlib.cipher_fns(mod, ("aead", "siv")):
         _exact(aeadlib.check_cipher, ck, mod, f, label, rm)
+    # the same clause for HKDF: which bytes of the caller's buffer a call writes (left-over bytes, whole and partial blocks, and the zero
+    # fill of exactly the rest when the 255-block limit is hit) - taken from the HKDF stream summaries (C13 decides the values)
+    from . import kdflib as _kdf
+    _wr = ("refuse-zero-fill", "refuse-before-loop", "leftover-short", "leftover-all", "block-copy")
+
+    def _hk(cond, rule, fn, cons, ok, bad, where=None):
+        if cons.startswith(_wr):
+            return ck.ob(cond, "R-C06-EXACT", fn, cons, ok, bad, where=where)
+        return cond
+    _exact(_kdf.check_hkdf, _hk, mod, label)
 
     class _W:
         def __init__(self, ck):
